@@ -1311,6 +1311,13 @@ fn hf(a: &str, path: &[&str], sel: Option<&str>, v: &str) -> FSpec {
 /// element is being buffered (replace / append+selector / prepend+selector) and with two html stages.
 /// LONG BUFFERS: a 100 KiB target element, 1 000 sibling targets.
 pub fn boundary_cases() -> Vec<BCase> {
+    let mut out = held_tail_cases(BOUNDARY_SIZES);
+    out.extend(big_target_cases(100 * 1024));
+    out.extend(sibling_cases(1000));
+    out
+}
+
+pub fn held_tail_cases(sizes: &[usize]) -> Vec<BCase> {
     let mut out = Vec::new();
     let filler = |n: usize| -> String {
         const AB: &[u8] = b"ABCDEFGHIJKLMNOPQRSTUVWXYZabcdefghijklmnopqrstuvwxyz0123456789+/";
@@ -1323,7 +1330,7 @@ pub fn boundary_cases() -> Vec<BCase> {
         ("buffered-prepend-sel", true, vec![hf("prepend_child", &["html", "body", "div"], Some("rio-never"), "<ins-0>v0</ins-0>")]),
         ("two-html", true, vec![hf("append_child", &["html", "body"], None, "<ins-0>v0</ins-0>"), hf("replace", &["html", "body", "div"], Some("*"), "<ins-1>r</ins-1>")]),
     ];
-    for (si, &n) in BOUNDARY_SIZES.iter().enumerate() {
+    for (si, &n) in sizes.iter().enumerate() {
         for kind in ["tag", "text", "mb"] {
             // the construct and the offset of the cut inside it
             let (construct, cut_in): (String, usize) = match kind {
@@ -1351,11 +1358,16 @@ pub fn boundary_cases() -> Vec<BCase> {
             }
         }
     }
-    // long buffered element (100 KiB) — few tokens, the buffer is what is long
+    out
+}
+
+/// long buffered element (about `size` bytes) — few tokens, the buffer is what is long
+pub fn big_target_cases(size: usize) -> Vec<BCase> {
+    let mut out = Vec::new();
     let blob = "lorem ipsum dolor sit amet ";
     let mut inner = String::new();
     for i in 0..10 {
-        inner.push_str(&format!("<b>{}</b>{}", blob.repeat(10 * 1024 / blob.len()), if i % 3 == 0 { "\u{e9}<" } else { " " }));
+        inner.push_str(&format!("<b>{}</b>{}", blob.repeat((size / 10 / blob.len()).max(1)), if i % 3 == 0 { "\u{e9}<" } else { " " }));
     }
     let big = format!("<html><body><div id=t>{inner}</div><p>z</p></body></html>").into_bytes();
     for (cname, filters) in [
@@ -1368,9 +1380,14 @@ pub fn boundary_cases() -> Vec<BCase> {
         let scheds = vec![vec![len / 2], (1..=(len - 1) / 4096).map(|i| i * 4096).collect(), vec![17, len - 20], (1..=(len - 1) / 8191).map(|i| i * 8191).collect()];
         out.push(BCase { body: big.clone(), filters, scheds, shape: format!("boundary:big-target:{cname}") });
     }
-    // 1 000 sibling targets
+    out
+}
+
+/// `count` sibling targets
+pub fn sibling_cases(count: usize) -> Vec<BCase> {
+    let mut out = Vec::new();
     let mut sib = String::from("<html><body><ul>");
-    for i in 0..1000 {
+    for i in 0..count {
         sib.push_str(&format!("<li>{i}</li>"));
     }
     sib.push_str("</ul></body></html>");
@@ -1384,6 +1401,76 @@ pub fn boundary_cases() -> Vec<BCase> {
         let len = sib.len();
         let scheds = vec![vec![len / 2], (1..=(len - 1) / 7).map(|i| i * 7).collect(), (1..=(len - 1) / 4096).map(|i| i * 4096).collect()];
         out.push(BCase { body: sib.clone(), filters, scheds, shape: format!("boundary:siblings:{cname}") });
+    }
+    out
+}
+
+// ------------------------------------------------------------------------------------------------
+// diff-directed hints (VERIF_HINTS): sizes and strings mentioned by a changed source line
+// ------------------------------------------------------------------------------------------------
+
+fn swapcase(s: &str) -> String {
+    s.chars().map(|c| if c.is_ascii_uppercase() { c.to_ascii_lowercase() } else { c.to_ascii_uppercase() }).collect()
+}
+
+/// hint-directed html cases for c03 / c04 (emitted FIRST when the source differs from the baseline)
+pub fn hint_cases_html(h: &rio_harness::Hints) -> Vec<BCase> {
+    let mut out = Vec::new();
+    let sizes = h.sizes(300_000);
+    // held-tail lengths (unfinished tag, held text, pending bytes) at a chunk cut, in every context
+    out.extend(held_tail_cases(&sizes));
+    for &n in &sizes {
+        // buffered-element size, number of sibling targets
+        if n >= 64 {
+            out.extend(big_target_cases(n));
+        }
+        if n <= 5000 {
+            out.extend(sibling_cases(n));
+        }
+        // body size exactly n (text in a small document), chunk size / stride n, number of chunks n
+        let skeleton = "<html><body><div>";
+        let tail = "</div></body></html>";
+        let textlen = n.saturating_sub(skeleton.len() + tail.len());
+        let body = format!("{skeleton}{}{tail}", "t".repeat(textlen)).into_bytes();
+        let fl = vec![hf("append_child", &["html", "body", "div"], Some("rio-never"), "<ins-0>v0</ins-0>")];
+        if body.len() > 2 {
+            let len = body.len();
+            out.push(BCase { body: body.clone(), filters: fl.clone(), scheds: vec![vec![len / 2], vec![1], vec![len - 1], (1..len).step_by((len / 50).max(1)).collect()], shape: format!("hint:body-size:{n}") });
+        }
+        let big = format!("{skeleton}{}<p>x</p>{}{tail}", "a ".repeat(n), "b<".repeat(n / 2 + 1)).into_bytes();
+        let len = big.len();
+        out.push(BCase { body: big, filters: fl.clone(), scheds: vec![(1..=(len - 1) / n).map(|i| i * n).collect(), (1..=(len - 1) / (n + 1)).map(|i| i * (n + 1)).collect()], shape: format!("hint:stride:{n}") });
+        if n <= 4000 {
+            let b = format!("{skeleton}{}{tail}", "xy<z ".repeat(n / 5 + 2)).into_bytes();
+            let cuts: Vec<usize> = (1..=n.min(b.len() - 1)).collect();
+            out.push(BCase { body: b, filters: fl.clone(), scheds: vec![cuts], shape: format!("hint:chunks:{n}") });
+        }
+        if n <= 40 {
+            // number of stages
+            let fs: Vec<FSpec> = (0..n).map(|i| if i % 3 == 2 { FSpec::Text { action: "append_text".to_string(), content: format!("\u{a7}T{i}\u{a7}") } } else { hf("append_child", &["html", "body"], None, &format!("<ins-{i}/>")) }).collect();
+            let b = format!("{skeleton}d{tail}").into_bytes();
+            let len = b.len();
+            out.push(BCase { body: b, filters: fs, scheds: (1..len).map(|p| vec![p]).collect(), shape: format!("hint:stages:{n}") });
+        }
+    }
+    // strings / bytes: into text, attribute values, tag names and white space, filter values, element_tree names, selectors
+    for s0 in &h.strs {
+        for s in [s0.clone(), s0.to_uppercase(), s0.to_lowercase(), swapcase(s0)] {
+            let name_ok = !s.is_empty() && s.chars().all(|c| c.is_ascii_alphanumeric() || c == '-');
+            let el = if name_ok { format!("x{s}") } else { "div".to_string() };
+            let body = format!("<html><body>{s}<{el} a=\"{s}\" b={s}{s}c='{s}'>{s}<p{s}>t{s}</p{s}></{el}>{s}<{s}></body></html>");
+            let len = body.len();
+            let scheds: Vec<Vec<usize>> = (1..len).map(|p| vec![p]).chain(std::iter::once((1..len).collect())).collect();
+            let fsets: Vec<Vec<FSpec>> = vec![
+                vec![hf("append_child", &["html", "body", &el.to_lowercase()], None, &format!("<ins-0>{s}</ins-0>\u{a7}"))],
+                vec![hf("replace", &["html", "body", &el.to_lowercase()], Some(&(if name_ok { format!("rio-never{}", s.to_lowercase()) } else { "*".to_string() })), &format!("\u{a7}{s}\u{a7}R"))],
+                vec![hf("prepend_child", &["html", "body", &el.to_lowercase(), "p"], Some("rio-never"), "<ins-0/>"), FSpec::Text { action: "append_text".to_string(), content: format!("\u{a7}{s}") }],
+                vec![hf("append_child", &["html", &s], None, "<ins-0/>")],
+            ];
+            for fs in fsets {
+                out.push(BCase { body: body.clone().into_bytes(), filters: fs, scheds: scheds.clone(), shape: "hint:str".to_string() });
+            }
+        }
     }
     out
 }
